@@ -410,18 +410,21 @@ def emit_exact(mod, fn, target, jde_final, shape, extra_hyp, allv, fnames, y0, r
     w(HEADER.replace("From Proofs.C15 Require Import C15_angle C15_tac2 C15_fdefs.",
                      "From Proofs.C02 Require Import C02_ctor_ideal.\nFrom Proofs.C15 Require Import C15_angle C15_tac2 C15_fdefs %s." % mod))
     yl, rl = rlit(y0[0], y0[1]), rlit(rate[0], rate[1])
+    import math
+    klo = math.floor((Fraction(-2000) - y0[2]) * rate[2]) - 2
+    khi = math.ceil((Fraction(4001) - y0[2]) * rate[2]) + 3
     w("Lemma k_window yr : -2000 <= yr <= 4001 -> -41 <= kk yr / cc <= 21.")
     w("Proof.")
     w("  intro H. rewrite kk_index. pose proof (Rround_bounds ((yr - %s) * %s)) as Rb." % (yl, rl))
     w("  set (n := IZR (Rround ((yr - %s) * %s))) in *." % (yl, rl))
-    w("  assert (Hn : -55000 <= n + off <= 28000).")
+    w("  assert (Hn : %d <= n + off <= %d)." % (klo, khi))
     w("  { revert Rb. unfold off. lit_norm. intro Rb. lra. }")
     w("  revert Hn. generalize (n + off). intros x Hx. unfold cc. lit_norm. split; interval.")
     w("Qed.")
     w("Lemma X_in_range yr : -2000 <= yr <= 4001 -> jde_in_range (%s (kk yr))." % jde_final)
     w("Proof.")
     w("  intro H. pose proof (k_window yr H) as Hk. pose proof (dev_bound _ Hk) as D. apply abs_le_inv in D.")
-    w("  assert (Hx : -55000 <= kk yr <= 28000).")
+    w("  assert (Hx : %d <= kk yr <= %d)." % (klo, khi))
     w("  { rewrite kk_index. pose proof (Rround_bounds ((yr - %s) * %s)) as Rb. revert Rb. unfold off. lit_norm. intro Rb. lra. }" % (yl, rl))
     w("  revert D. unfold jde_in_range, J0, B, C. lit_norm. intro D. lra.")
     w("Qed.")
